@@ -26,7 +26,7 @@ PLAN = {
     "C11": {"quick": 16000, "thorough": 120000},
     "C12": {"quick": 24000, "thorough": 200000},
     "C13": {"quick": 11694, "thorough": 35082},  # lane L: the whole catalogue once / three times (other schedulers)
-    "C14": {"quick": 11302, "thorough": 70015},  # 2x / 5x the enumerated grid (5651 / 14003 cells)
+    "C14": {"quick": 12422, "thorough": 75455},  # 2x / 5x the enumerated grid (6211 / 15091 cells)
     "C15": {"quick": 16000, "thorough": 160000},
     "C17": {"quick": 40000, "thorough": 200000},
     "C20": {"quick": 60000, "thorough": 1000000},
